@@ -396,7 +396,7 @@ impl FileSpec {
     // like read_dir_related_files(), but fails if the directory exists and cannot be read
     pub(crate) fn try_read_dir_related_files(&self) -> Result<Vec<PathBuf>, std::io::Error> {
         #[cfg(feature = "verif_hooks")]
-        crate::verif_hooks::point("read_dir", Some(&self.directory), None).ok();
+        crate::verif_hooks::point("read_dir", Some(&self.directory), None)?;
         let fixed_name_part = self.fixed_name_part();
         let read_dir = match std::fs::read_dir(&self.directory) {
             Ok(read_dir) => read_dir,
